@@ -2,9 +2,11 @@
    Only theorem statements; proofs are in Proofs/WalkFacts.v, WalkFacts2.v.  The matcher excl
    (pathspec on absolute paths, directories with a trailing slash) is a parameter: the theorems
    hold for every matcher; the harness validates that CMinx asks pathspec the right question. *)
-From Coq Require Import String List Permutation.
+From Coq Require Import String List Permutation NArith.
 From CMinx Require Import Base.Str Model.Naming Model.Pipeline Model.Walk
-     Proofs.WalkFacts Proofs.WalkFacts2.
+     Proofs.WalkFacts Proofs.WalkFacts2
+     Base.PyWalkSem Proofs.WalkSourceMatch.
+From CMinx Require Gen.PyWalkSource.
 Import ListNotations.
 
 (* a written page stems from a non-excluded CMake file of a visited directory *)
@@ -51,3 +53,22 @@ Theorem C15_listing_order_irrelevant :
                 (writes (document st hdrs docfn excl base (KDir ch'))).
 Proof. exact listing_order_irrelevant. Qed.
 Print Assumptions C15_listing_order_irrelevant.
+
+(* pywalk2coq: document() as regenerated from src/cminx/__init__.py on every run (os.walk loop with
+   in-place pruning, for/else, break/continue, rebinding by sorted, index construction, per-file
+   loop), run on an abstract world, produces exactly the action list of the model.  names_distinct
+   (no two sibling directories / files with one name) holds of every real directory. *)
+Theorem C15_document_matches_source :
+  forall st hdrs docfn excl follow base kind input_file,
+    kind_distinct kind = true ->
+    PyWalkSource.document (PyWorld base kind) docfn [] input_file (py_settings_of st hdrs excl follow)
+    = Walk.document st hdrs docfn excl base kind.
+Proof. exact document_matches_source. Qed.
+Print Assumptions C15_document_matches_source.
+
+Theorem C15_document_excluded_input_source :
+  forall st hdrs docfn excl follow base kind input_file,
+    excl [] (match kind with KDir _ => true | _ => false end) = true ->
+    PyWalkSource.document (PyWorld base kind) docfn [] input_file (py_settings_of st hdrs excl follow) = [].
+Proof. exact document_excluded_input_source. Qed.
+Print Assumptions C15_document_excluded_input_source.
